@@ -239,6 +239,7 @@ pub fn check(prop: &'static dyn Property, o: &CheckOpts) -> CheckResult {
                 std::thread::Builder::new()
                     .stack_size(64 << 20)
                     .spawn_scoped(s, move || {
+                        crate::heap::set_worker(w);
                         let mut ctx = Ctx::new(tier);
                         // share the "current scenario" slot with the supervisor
                         ctx.current = beat.1.clone();
@@ -319,7 +320,46 @@ pub fn check(prop: &'static dyn Property, o: &CheckOpts) -> CheckResult {
             let mut last: Vec<(u64, Instant)> =
                 sup_beats.iter().map(|_| (0, Instant::now())).collect();
             while !done_ref.load(Ordering::SeqCst) {
-                std::thread::sleep(Duration::from_millis(250));
+                std::thread::sleep(Duration::from_millis(100));
+                let trapped = crate::heap::TRAP_SIZE.load(Ordering::SeqCst);
+                if trapped != 0 {
+                    crate::heap::TRAP_ACK.store(1, Ordering::SeqCst);
+                    // a worker asked for an absurd single allocation and is parked
+                    let w = crate::heap::TRAP_WORKER.load(Ordering::SeqCst);
+                    let sc = sup_beats
+                        .get(w)
+                        .and_then(|b| b.1.lock().ok().and_then(|g| g.clone()));
+                    let run = sup_beats.get(w).map(|b| b.0.load(Ordering::Relaxed)).unwrap_or(0);
+                    let path = format!(
+                        "{}/replays/{}-{}-allocbomb-run{}.json",
+                        verif_dir,
+                        id,
+                        profile(),
+                        run.saturating_sub(1)
+                    );
+                    let _ = std::fs::create_dir_all(format!("{}/replays", verif_dir));
+                    let detail = format!(
+                        "a single allocation of {} bytes was requested (limit {}); the real allocator would abort the process",
+                        trapped,
+                        crate::heap::TRAP_LIMIT
+                    );
+                    let j = Json::obj()
+                        .with("format", Json::Int(1))
+                        .with("property", Json::str(id))
+                        .with("profile", Json::str(profile()))
+                        .with("scenario", sc.map(|s| s.to_json(false)).unwrap_or(Json::Null))
+                        .with(
+                            "violation",
+                            Json::obj()
+                                .with("class", Json::str("allocation_bomb"))
+                                .with("locus", Json::str("single allocation request above 1 GiB"))
+                                .with("detail", Json::str(&detail)),
+                        );
+                    let _ = std::fs::write(&path, j.to_pretty());
+                    println!("violation: class=allocation_bomb {}", detail);
+                    println!("VIOLATION property={} replay={}", id, path);
+                    std::process::exit(1);
+                }
                 for (w, b) in sup_beats.iter().enumerate() {
                     let cur = b.0.load(Ordering::Relaxed);
                     if cur == 0 || cur != last[w].0 {
@@ -399,7 +439,32 @@ pub fn check(prop: &'static dyn Property, o: &CheckOpts) -> CheckResult {
             (Vec::new(), first.v, 0)
         } else {
             let n0 = first.tape.len();
-            let (t, v) = shrink(prop, o.tier, first.tape, first.v, 20.0);
+            // shrink in a helper thread: a candidate may turn into an allocation
+            // bomb, which parks the thread for good — then keep the original
+            let (tx, rx) = std::sync::mpsc::channel();
+            let (tape0, v0, tier) = (first.tape.clone(), first.v.clone(), o.tier);
+            std::thread::Builder::new()
+                .stack_size(64 << 20)
+                .spawn(move || {
+                    let r = shrink(prop, tier, tape0, v0, 20.0);
+                    let _ = tx.send(r);
+                })
+                .expect("spawn shrinker");
+            let t_sh = Instant::now();
+            let (t, v) = loop {
+                match rx.recv_timeout(Duration::from_millis(50)) {
+                    Ok(r) => break r,
+                    Err(std::sync::mpsc::RecvTimeoutError::Timeout) => {
+                        if crate::heap::TRAP_SIZE.load(Ordering::SeqCst) != 0
+                            || t_sh.elapsed() > Duration::from_secs(120)
+                        {
+                            crate::heap::TRAP_ACK.store(1, Ordering::SeqCst);
+                            break (first.tape, first.v);
+                        }
+                    }
+                    Err(_) => break (first.tape, first.v),
+                }
+            };
             (t, v, n0)
         };
         let _ = std::fs::create_dir_all(format!("{}/replays", o.verif_dir));
@@ -465,6 +530,31 @@ pub fn check(prop: &'static dyn Property, o: &CheckOpts) -> CheckResult {
 
     let wall = t0.elapsed().as_secs_f64();
     let evals = stats.evaluations;
+    // order-independent fingerprint of everything this run measured: equal
+    // fingerprints <=> same cases, same event logs, same counters
+    let fingerprint = {
+        let mut x = 0u64;
+        let mut sum = 0u64;
+        for d in &stats.distinct {
+            x ^= *d;
+            sum = sum.wrapping_add(d.wrapping_mul(0x9E37_79B9_7F4A_7C15));
+        }
+        let mut h = crate::prng::Hash64::new();
+        h.u(x);
+        h.u(sum);
+        h.u(stats.evaluations);
+        h.u(stats.nontrivial);
+        h.u(stats.events);
+        for (k, v) in &stats.counters {
+            h.str(k);
+            h.u(*v);
+        }
+        for (k, v) in &stats.maxima {
+            h.str(k);
+            h.u(*v);
+        }
+        h.get()
+    };
     let samples: Vec<Json> = stats
         .samples
         .iter()
@@ -496,6 +586,7 @@ pub fn check(prop: &'static dyn Property, o: &CheckOpts) -> CheckResult {
         .with("observations", obs)
         .with("samples", Json::Arr(samples))
         .with("wall_s", Json::Float(wall))
+        .with("fingerprint", Json::str(&format!("{:016x}", fingerprint)))
         .with("violation", violation_json)
         .with("replay", Json::str(&replay_path))
         .with(
@@ -692,9 +783,39 @@ pub fn replay_file(props: &[&'static dyn Property], path: &str, quiet: bool) -> 
         .and_then(|v| v.get("locus"))
         .and_then(|x| x.as_str())
         .unwrap_or("");
-    let mut ctx = Ctx::new(Tier::Quick);
-    ctx.quiet = true;
-    let vs = prop.replay(&sc, &mut ctx);
+    // run in a thread so that an allocation bomb (which parks the thread) is seen
+    let (tx, rx) = std::sync::mpsc::channel();
+    let sc2 = sc.clone();
+    std::thread::Builder::new()
+        .stack_size(64 << 20)
+        .spawn(move || {
+            let mut ctx = Ctx::new(Tier::Quick);
+            ctx.quiet = true;
+            let vs = prop.replay(&sc2, &mut ctx);
+            let _ = tx.send(vs);
+        })
+        .expect("spawn replay thread");
+    let vs = loop {
+        match rx.recv_timeout(Duration::from_millis(50)) {
+            Ok(vs) => break vs,
+            Err(std::sync::mpsc::RecvTimeoutError::Timeout) => {
+                let trapped = crate::heap::TRAP_SIZE.load(Ordering::SeqCst);
+                if trapped != 0 {
+                    crate::heap::TRAP_ACK.store(1, Ordering::SeqCst);
+                    break vec![Violation::new(
+                        "allocation_bomb",
+                        "single allocation request above 1 GiB",
+                        format!("a single allocation of {} bytes was requested", trapped),
+                        &sc,
+                    )];
+                }
+            }
+            Err(_) => {
+                eprintln!("HARNESS-ERROR: replay thread died");
+                return 2;
+            }
+        }
+    };
     let mut code = 0;
     for v in &vs {
         let same = (want_class.is_empty() || v.class == want_class)
